@@ -117,10 +117,26 @@ SameLeftCycle(r) == {q \in RuleNames : q \in ReachL(r) /\ r \in ReachL(q)}
 RECURSIVE ReachAvoid(_, _, _)
 ReachAvoid(front, seen, avoid) == LET nxt == (UNION {CallsOf(x) : x \in front} \ seen) \ avoid IN
                                   IF nxt = {} THEN seen ELSE ReachAvoid(nxt, seen \cup nxt, avoid)
+\* calls that can happen at a position other than the one at which the enclosing rule was entered (over-approximation: everything
+\* after the first element of a sequence that is not a pure zero-width element, and every iteration of a repetition)
+ZeroWidth(e) == e.op \in {"void", "cut", "and", "not", "eof", "fail", "const", "oconst", "constbad", "emptyclosure"}
+RECURSIVE NLC(_, _)
+RECURSIVE NLCSeq(_, _, _)
+NLC(e, left) == CASE e.op = "call" -> IF left THEN {} ELSE {e.name}
+                  [] e.op = "seq" -> NLCSeq(e.es, 1, left)
+                  [] e.op = "alt" -> UNION {NLC(e.es[i], left) : i \in 1..Len(e.es)}
+                  [] e.op \in {"star", "plus"} -> NLC(e.e, left) \cup NLC(e.e, FALSE)
+                  [] e.op = "join" -> NLC(e.e, left) \cup NLC(e.e, FALSE) \cup NLC(e.sep, FALSE)
+                  [] e.op = "skipto" -> NLC(e.e, FALSE)
+                  [] e.op \in Unary -> NLC(e.e, left)
+                  [] OTHER -> {}
+NLCSeq(es, i, left) == IF i > Len(es) THEN {} ELSE NLC(es[i], left) \cup NLCSeq(es, i + 1, left /\ ZeroWidth(es[i]))
+NonLeftCalled == UNION {NLC(G.rules[i].exp, TRUE) : i \in 1..Len(G.rules)}
 StaticLeaderDeviates(start) ==
     \E r \in LeftRecursive : /\ ~RuleRec(r).lrec
-                             /\ LET av == {q \in SameLeftCycle(r) : RuleRec(q).lrec} IN
-                                  start \notin av /\ r \in ReachAvoid({start}, {start}, av)
+                             /\ \/ r \in NonLeftCalled             \* the cycle can be entered through r at a fresh position
+                                \/ LET av == {q \in SameLeftCycle(r) : RuleRec(q).lrec} IN
+                                   start \notin av /\ r \in ReachAvoid({start}, {start}, av)
 
 \* ---- can an expression succeed while contributing no item (its packed value is None)?
 \* (an option/path that binds a name yields a dict, never None; an optional can always be skipped)
